@@ -428,11 +428,32 @@ static void build_eval(uint64_t idx, void *ctx) {
         }
         o.query_params = &plist;
     }
+    /* the same options object is used for two builds, the first URI being cleaned up in between: the options belong to the
+     * caller and describe the same URI the second time (added after a seeded change that redirected options->path into the
+     * storage of the URI just built) */
+    uint8_t *first_txt = NULL;
+    size_t first_len = 0;
+    int first_rc;
+    {
+        struct aws_uri first;
+        memset(&first, 0xEE, sizeof(first));
+        first_rc = aws_uri_init_from_builder_options(&first, A, &o);
+        if (first_rc == AWS_OP_SUCCESS) {
+            first_len = first.uri_str.len;
+            first_txt = bee_block(first.uri_str.buffer, first_len);
+            aws_uri_clean_up(&first);
+        }
+    }
     struct aws_uri built;
     memset(&built, 0xEE, sizeof(built));
     aws_reset_error();
     int rc = aws_uri_init_from_builder_options(&built, A, &o);
     int err = aws_last_error();
+    if (rc == AWS_OP_SUCCESS || first_rc == AWS_OP_SUCCESS)
+        BEE_CHECK(rc == first_rc && first_len == built.uri_str.len && memcmp(first_txt, built.uri_str.buffer, first_len) == 0, "build-twice-from-the-same-options",
+                  "two builds from one options object (the first URI cleaned up in between): first rc %d \"%s\", second rc %d \"%s\"", first_rc, first_txt ? v_show(first_txt, first_len) : "",
+                  rc, rc == AWS_OP_SUCCESS ? v_show(built.uri_str.buffer, built.uri_str.len) : "");
+    free(first_txt);
     aws_array_list_clean_up(&plist);
     free(b_s);
     free(b_h);
